@@ -1533,7 +1533,17 @@ def call_method(eng, recv, r, name, args, kwargs, node, frame):
         con = C.lookup("<opaque>", f"{r.tag}.{name}")
         if con is not None:
             return eng.call_contract(con, [recv] + args, kwargs, node, frame)
-        return eng.opaque_call(f"<method {name} of {r.tag or 'opaque'}>", args + list(kwargs.values()), node)
+        res = eng.opaque_call(f"<method {name} of {r.tag or 'opaque'}>", args + list(kwargs.values()), node)
+        cur = getattr(eng.vf, "current", None)
+        posts = cur.options.get("opaque_posts", {}).get(name) if cur is not None else None
+        if posts and eng.call_depth == 0:
+            # assumed effect of an untracked callee, by method name (listed in the evidence)
+            env = {f"arg{i}": a for i, a in enumerate(args)}
+            env["result"] = res
+            for p in posts:
+                eng.assume(eng.eval_spec_bool(p, frame or eng.cur_frame, extra=env))
+            eng.vf.note_assumption(f"on normal return of any .{name}(...): {posts}")
+        return res
     if isinstance(r, VModule):
         return eng.call(eng.get_attr(r, name, node, frame), args, kwargs, node, frame)
     if isinstance(r, VTuple):
